@@ -50,6 +50,7 @@ class Grammar:
         self.extra = extra or []  # additional explicit inputs (latin-1 strings)
         self.selectors = []       # parse-tree selectors 1..: dict ctype -> mode (1 store, 2 remove_content, 3 fold_one, 4 discard_empty)
         self.analyze = False      # C11: emit a call of tao::pegtl::analyze< R0 >
+        self.mustif = None        # C05: {"msg": {ctype: text}, "rof": {ctype: bool}, "override": bool} -> struct errs for must_if<>
         self.fam1 = {}            # scripted actions of the second action family (C13): ctype -> kind
         self.switches = {}        # attached switches: str(family) -> { ctype: [name, a, b] }
         self.maxlen = maxlen      # (quick, thorough) exhaustive input length, None = default
@@ -58,7 +59,7 @@ class Grammar:
         return {"rules": [r.to_json() for r in self.rules], "actions": self.actions,
                 "errmsg": {str(k): v for k, v in self.errmsg.items()}, "nonempty_slots": self.nonempty_slots,
                 "veto": self.veto, "throw": self.throw, "alphabet": self.alphabet, "note": self.note,
-                "extra": self.extra, "maxlen": self.maxlen, "selectors": self.selectors, "fam1": self.fam1, "switches": self.switches, "analyze": self.analyze}
+                "extra": self.extra, "maxlen": self.maxlen, "selectors": self.selectors, "fam1": self.fam1, "switches": self.switches, "analyze": self.analyze, "mustif": self.mustif}
 
     @staticmethod
     def from_json(j):
@@ -69,6 +70,7 @@ class Grammar:
         g.selectors = j.get("selectors", [])
         g.fam1 = j.get("fam1", {})
         g.analyze = j.get("analyze", False)
+        g.mustif = j.get("mustif")
         g.switches = j.get("switches", {})
         return g
 
@@ -186,7 +188,7 @@ def pretty(g):
 
 class M:
     """model node"""
-    __slots__ = ("op", "kids", "s", "a", "b", "ctype", "action", "errmsg", "rs")
+    __slots__ = ("op", "kids", "s", "a", "b", "ctype", "action", "errmsg", "rs", "mi_msg", "mi_rof")
 
     def __init__(self, op, kids=(), s="", a=0, b=0):
         self.op = op
@@ -198,6 +200,8 @@ class M:
         self.action = 0
         self.errmsg = ""
         self.rs = None  # rule-level switch for C13: (kind, a)
+        self.mi_msg = ""
+        self.mi_rof = False
 
 
 class E:
@@ -490,6 +494,12 @@ class Lowered:
             m.rs = (5, -1)
         elif n.op in ("at", "not_at"):
             m.rs = (6, -1)
+        if self.g.mustif:
+            m.mi_msg = self.g.mustif["msg"].get(ct, "")
+            if self.g.mustif.get("override"):
+                m.mi_rof = bool(self.g.mustif["rof"].get(ct, False))
+            else:
+                m.mi_rof = bool(m.mi_msg)
         if n.op == "raise_message":
             m.errmsg = n.p["msg"]  # raise_message< Cs... > carries its text as error_message
         m.action = self.g.actions.get(ct, 0)
@@ -620,6 +630,18 @@ def emit_grammar(g, gi, cfgset_macro="VF_CFGS"):
             out.append("struct R%d : %s { static constexpr const char* error_message = \"%s\"; };" % (i, body, g.errmsg[i]))
         else:
             out.append("struct R%d : %s {};" % (i, body))
+    if g.mustif:
+        out.append("struct errs {")
+        out.append("   template< typename Rule > static constexpr const char* message = nullptr;")
+        if g.mustif.get("override"):
+            out.append("   template< typename Rule > static constexpr bool raise_on_failure = false;")
+        out.append("};")
+        for ct, text in sorted(g.mustif["msg"].items()):
+            out.append("template<> inline constexpr const char* errs::message< %s > = \"%s\";" % (ct, text))
+        if g.mustif.get("override"):
+            for ct, v in sorted(g.mustif["rof"].items()):
+                if v:
+                    out.append("template<> inline constexpr bool errs::raise_on_failure< %s > = true;" % ct)
     out.append("template< typename R > struct act : nothing< R > { static constexpr int fam = 0; };")
     out.append("template< typename R > struct act1 : nothing< R > { static constexpr int fam = 1; };")
     KIND = {1: "pm::VOID_APPLY", 2: "pm::VOID_APPLY0", 3: "pm::BOOL_APPLY", 4: "pm::BOOL_APPLY0"}
@@ -674,6 +696,10 @@ def emit_grammar(g, gi, cfgset_macro="VF_CFGS"):
             parts.append("n.action = %d;" % m.action)
         if m.errmsg:
             parts.append("n.errmsg = \"%s\";" % m.errmsg)
+        if m.mi_msg:
+            parts.append("n.mi_msg = \"%s\";" % m.mi_msg)
+        if m.mi_rof:
+            parts.append("n.mi_rof = true;")
         if m.ctype:
             parts.append("n.tname = vf::rule_name< %s >();" % m.ctype)
         out.append(" { auto& n = g.nodes[ %d ]; %s }" % (i, " ".join(parts)))
